@@ -109,6 +109,9 @@ def arctan2(y, x):
         return _mk(S.float64, math.atan2(y.v, x.v))
     if _fnan(x) or _fnan(y):
         return _mk(S.float64, S.NAN)
+    if not y.sym and y.v == 0 and math.copysign(1.0, float(y.v)) < 0:
+        # IEEE signed zero: atan2(-0.0, x) is -pi for x < 0 and -0.0 otherwise (a symbolic x that is zero is taken as +0.0)
+        return _mk(S.float64, z3.If(_real(x) < 0, -PI, z3.RealVal(0)))
     b, a = _real(y), _real(x)
     ex, t, new, _ = _apply("atan2", b, a)
     if new:
